@@ -37,6 +37,8 @@ structure Cfg where
   cap : Nat
   /-- the dispatch in `Put` is `j <- cbPair{…}` (true, as coded) rather than a `select` with `default` (false) -/
   blocking : Bool
+  /-- the close signal in `AddCallback` is a plain send too (true, as coded) -/
+  closeBlocking : Bool := true
   deriving DecidableEq, Repr
 
 structure InPut where
@@ -142,7 +144,8 @@ def step (cfg : Cfg) (s : St) : Ev → Option St
   | .add id =>
     if s.writer.isSome || !s.puts.isEmpty then none
     else match chanOf s id with
-      | some c => if c.queue.length < cfg.cap then some (install s id) else some { s with writer := some id }
+      | some c =>
+        if c.queue.length < cfg.cap || !cfg.closeBlocking then some (install s id) else some { s with writer := some id }
       | none => some (install s id)
   | .addResume =>
     match s.writer with
